@@ -168,7 +168,7 @@ func init() {
 	core.Register(&core.Prop{
 		ID:    "C18",
 		Level: "exploration",
-		Rule: "random package trees (packages nested to depth 3, value / function / hash members with nested hashes, names with upper-case, lower-case, underscore and non-ASCII first runes), reached through the package, an alias of it, an alias of an inner package and a hash holding the package. Every member path is accessed from outside by a read route (operand of a builtin, right-hand side of def and let, argument, infix operand, call through the path for functions) and every value member directly under a package by the write routes (set p.x v) and {p.x = v}, verified through a capitalised getter defined inside the package; inside code (public getter/setter) must keep full access to private members when called from outside. " +
+		Rule: "random package trees (packages nested to depth 3, value / function / hash members with nested hashes, names with upper-case, lower-case, underscore and non-ASCII first runes), reached through the package, an alias of it, an alias of an inner package and a hash holding the package. Every member path is accessed from outside by a read route (operand of a builtin, right-hand side of def and let, argument, infix operand, call through the path for functions) and every value member directly under a package by the write routes (set p.x v) and {p.x = v}, verified through a capitalised getter defined inside the package; generic accessors (hget in all its spellings, hpair) handed the package value itself must never return a private member's canary; inside code (public getter/setter) must keep full access to private members when called from outside. " +
 			"Oracle: visibility model over the tree (capitalisation decides at the last hop and before entering a hash; nested packages traversable under any case; keys inside a reachable hash are not members): allowed => the member's unique canary integer is returned / the write takes effect; forbidden => an error, the canary never appears and the value is unchanged. non-trivial = distinct tree with >=1 nested package, >=1 hash member and both an allowed and a forbidden path",
 		Assumptions: []string{
 			"dot-symbols self-evaluate until used as an operand, so a path is always observed through a consuming route",
@@ -262,6 +262,38 @@ func c18Run(c *core.Ctx, i int) *core.Result {
 			res.Ev("reads_forbidden", 1)
 			if o.Err == nil || strings.Contains(got, canary) {
 				res.Violate("private-member-read:shape-"+p.shape, fmt.Sprintf("%s reaches a private member (canary %s) from outside and must fail, got %s", text, canary, got), setup+text)
+				return res
+			}
+		}
+	}
+	// generic accessors handed the package value itself (not a dot path, so they are free to fail;
+	// what they must never do is hand out a private member's value)
+	na := 0
+	for _, p := range paths {
+		if p.allow || na >= 8 || (p.leaf.kind != "val" && p.leaf.kind != "fn") {
+			continue
+		}
+		na++
+		holder := roots[g.r.N(len(roots))]
+		if len(p.parts) > 1 {
+			holder += "." + strings.Join(p.parts[:len(p.parts)-1], ".")
+		}
+		last := p.parts[len(p.parts)-1]
+		canary := strconv.Itoa(p.leaf.val)
+		for _, acc := range []string{"(hget %s %s:)", "(hget %s \"%s\")", "(hget %s %s: 0)", "(hget %s (quote %s))", "((hget %s %s:))", "(apply hget [%s (quote %s)])", "(hpair %s 0)", "(first (hpair %s 1))"} {
+			text := fmt.Sprintf(acc, holder, last)
+			if strings.Count(acc, "%s") == 1 {
+				text = fmt.Sprintf(acc, holder)
+			}
+			o := s.Eval(text+"\n", 0)
+			res.Evals++
+			res.Ev("accessor_on_package_value", 1)
+			if o.Panic != "" {
+				res.Violate("escaped-panic:"+o.Site, o.Panic, setup+text)
+				return res
+			}
+			if got := OutStr(o); o.Err == nil && strings.Contains(got, canary) {
+				res.Violate("private-member-read:accessor-on-package-value", fmt.Sprintf("%s hands out the private member %s (canary %s): %s", text, last, canary, got), setup+text)
 				return res
 			}
 		}
